@@ -50,14 +50,17 @@ LOOPS = ('while', 'for', 'forxs')
 
 class _Sk(object):
 
-  def __init__(self):
+  def __init__(self, pure=False):
     self.k = 0
+    self.pure = pure
 
   def tid(self):
     self.k += 1
     return self.k
 
   def tr(self, var='a', val=1):
+    if self.pure:
+      return '%s = %s * 2 + %d' % (var, var, val + self.tid())
     return '%s = %s + t(%d, %d)' % (var, var, self.tid(), val)
 
 
@@ -83,9 +86,9 @@ def _cond(level, chain_so_far, loopvar):
   return ['x > %d' % level, 'b', 'a < x'][level % 3]
 
 
-def build_skeleton(chain, leaf, variant=0):
+def build_skeleton(chain, leaf, variant=0, pure=False, chk=False):
   """Returns source text of f for a construct chain (outermost first) and leaf."""
-  sk = _Sk()
+  sk = _Sk(pure)
   loopvars = []
 
   def leaf_lines(level, loopvar):
@@ -97,6 +100,8 @@ def build_skeleton(chain, leaf, variant=0):
       body.append('break')
     elif leaf == 'continue':
       body.append('continue')
+    elif leaf == 'return' and pure:
+      body.append('return (a, c, %d)' % sk.tid())
     elif leaf == 'return':
       body.append('return (a, t(%d, c))' % sk.tid())
     elif leaf == 'raise':
@@ -158,7 +163,7 @@ def build_skeleton(chain, leaf, variant=0):
       inner = wrap(i + 1, None, True)
       # the nested function reads and rebinds the enclosing a/c through nonlocal
       return (['def %s(p):' % h] +
-              ind(['nonlocal a, c'] + inner + ['return a + p']) +
+              ind(['nonlocal a, c'] + (["chk('%s')" % h] if chk else []) + inner + ['return a + p']) +
               ['a = %s(%d)' % (h, i + 1), sk.tr('c', 11)])
     raise ValueError(c)
 
@@ -166,20 +171,27 @@ def build_skeleton(chain, leaf, variant=0):
   return '\n'.join(['def f(x, n, b, xs):'] + ind(body)) + '\n'
 
 
-def skeletons(max_depth, variants=(0,)):
-  """All valid (chain, leaf) skeletons with 1 <= len(chain) <= max_depth."""
+PURE_CONSTRUCTS = ['if', 'ifelse', 'orelse', 'while', 'for', 'forxs', 'tryfin']
+PURE_LEAVES = ['assign', 'break', 'continue', 'return']
+
+
+def skeletons(max_depth, variants=(0,), pure=False, chk=False):
+  """All valid (chain, leaf) skeletons with 1 <= len(chain) <= max_depth.
+
+  pure=True: side-effect-free, total programs (no tracer, no raise, no with).
+  """
   out = []
 
   def rec(chain):
     if chain:
-      for leaf in LEAVES:
+      for leaf in (PURE_LEAVES if pure else LEAVES):
         if _skeleton_valid(chain, leaf):
           for v in variants:
-            name = 'sk:%s:%s:v%d' % ('>'.join(chain), leaf, v)
+            name = '%s:%s:%s:v%d' % ('psk' if pure else 'sk', '>'.join(chain), leaf, v)
             tags = set(chain) | {'leaf_' + leaf}
-            out.append(Prog(name, build_skeleton(chain, leaf, v), tags))
+            out.append(Prog(name, build_skeleton(chain, leaf, v, pure, chk), tags))
     if len(chain) < max_depth:
-      for c in CONSTRUCTS:
+      for c in (PURE_CONSTRUCTS if pure else CONSTRUCTS):
         rec(chain + [c])
 
   rec([])
@@ -225,7 +237,8 @@ PURE_FEATURES = frozenset([
 class RandomGen(object):
 
   def __init__(self, seed, features=ALL_FEATURES, max_depth=3, max_stmts=5,
-               tracer=True):
+               tracer=True, chk=False):
+    self.chk = chk
     self.r = random.Random(seed)
     self.f = set(features)
     self.max_depth = max_depth
@@ -346,12 +359,14 @@ class RandomGen(object):
     if r < 0.37 and self.has('attr'):
       self.tags.add('attr')
       fld = self.r.choice(['v', 'w'])
-      if self.r.random() < 0.5:
+      # in the pure family a called local function must not mutate objects of
+      # its caller (documented: modifications are not detected across functions)
+      if self.r.random() < 0.5 and not (ctx.indef and not self.has('def')):
         return ['o.%s = o.%s + %s' % (fld, fld, self.expr(ctx, 1))]
       return ['%s = o.%s + %s' % (v, fld, self.atom(ctx))]
     if r < 0.47 and self.has('subscript'):
       self.tags.add('subscript')
-      if self.r.random() < 0.5:
+      if self.r.random() < 0.5 and not (ctx.indef and not self.has('def')):
         return ["d['k'] = d['k'] + %s" % self.expr(ctx, 1)]
       return ["%s = d['k'] - %s" % (v, self.atom(ctx))]
     if r < 0.55 and self.has('listops'):
@@ -363,6 +378,8 @@ class RandomGen(object):
     if r < 0.65 and self.has('global'):
       self.tags.add('global')
       self.need_global = True
+      if self.r.random() < 0.4:
+        return ['G = %s' % self.expr(ctx, 1)]   # write-only form
       return ['G = G + %s' % self.expr(ctx, 1)]
     if r < 0.69 and self.has('partial'):
       self.tags.add('partial')
@@ -433,10 +450,11 @@ class RandomGen(object):
       self.tags.add('def')
       h = self.fresh('h')
       p = self.fresh('p')
-      nl = [v for v in ctx.wr if self.r.random() < 0.4]
+      nl = [v for v in ctx.wr if self.r.random() < 0.4] if self.has('def') else []
       c = _Ctx(ctx.ints + [p], nl + [p] if nl else [p], loop=False, indef=True,
                depth=ctx.depth + 1)
-      body = (['nonlocal %s' % ', '.join(nl)] if nl else []) + self.block(c, self.r.randint(1, 3))
+      body = ((['nonlocal %s' % ', '.join(nl)] if nl else []) +
+              (["chk('%s')" % h] if self.chk else []) + self.block(c, self.r.randint(1, 3)))
       if not body[-1].startswith('return'):
         body.append('return %s' % self.expr(c, 1))
       v = self.r.choice(ctx.wr)
@@ -475,7 +493,7 @@ class RandomGen(object):
     body.append('return (%s)' % ', '.join(ret))
     src = ''
     if self.need_helper:
-      src += HELPER_SRC
+      src += HELPER_SRC.replace('  r = 0\n', "  chk('helper')\n  r = 0\n", 1) if self.chk else HELPER_SRC
     src += '\n'.join(['def f(x, n, b, xs):'] + ind(body)) + '\n'
     globs = {'G': 0} if self.need_global else {}
     return Prog(name, src, self.tags, globs)
@@ -498,9 +516,9 @@ HELPER_SRC = '''def helper(p, q):
 
 
 def random_programs(count, seed, features=ALL_FEATURES, max_depth=3, max_stmts=5,
-                    tracer=True, prefix='rnd'):
+                    tracer=True, prefix='rnd', chk=False):
   out = []
   for i in range(count):
-    g = RandomGen(seed * 100003 + i, features, max_depth, max_stmts, tracer)
+    g = RandomGen(seed * 100003 + i, features, max_depth, max_stmts, tracer, chk)
     out.append(g.program('%s:%d:%d' % (prefix, seed, i)))
   return out
